@@ -176,7 +176,8 @@ var sizeUnits = []struct {
 	{[]string{"E", "e", "EB", "eb", "eB"}, 60},
 }
 
-var SizeMalformed = []string{"abc", "MB", " 10MB", "-2", "-10MB", "1.5MB", "10 XB", "10 M B", "10MBs", "ten", "0x10", "1e3", "+5", "10 bytes", "10 exabytes", "1_000", "--1", "-1 ", " -1", "10 Mb", "1Kb", "3 Gb", "2Tb", "1Pb", "1Eb"}
+var SizeMalformed = []string{"abc", "MB", " 10MB", "-2", "-10MB", "1.5MB", "10 XB", "10 M B", "10MBs", "ten", "0x10", "1e3", "+5", "10 bytes", "10 exabytes", "1_000", "--1", "-1 ", " -1", "10 Mb", "1Kb", "3 Gb", "2Tb", "1Pb", "1Eb",
+	"5 \u212ab", "5\u212a", "1 g\u0130ga", "2 k\u0130lobyte", "3 \u212a\u0130lo", "7 \u00b5b", "1 m\u00e9ga"}
 
 // SizeDocumented are the manual's own examples with the printed form it documents.
 var SizeDocumented = [][2]string{{"10 MB", "10MB"}, {"10240 g", "10TB"}, {"2000", "2000B"}, {"1tB", "1TB"}, {"5 peta", "5PB"}, {"28 kilobytes", "28KB"}, {"1 gigabyte", "1GB"}}
